@@ -193,9 +193,23 @@ pub fn run(args: &Args, rep: &mut Report) {
         let mut r = case.rng.clone();
         rep.evaluations += 1;
         rep.begin(&case.text);
-        if lib_parse(&case.text).ok().as_ref() != Some(&case.ast) {
-            rep.count("skipped_parser_differs");
-            continue;
+        // The rule's comments are those of the expression as written (the generated AST). A parse
+        // that differs from it in anything but comments is C05's business and is skipped here; a
+        // parse that differs in comments only is judged against the written comments.
+        let strip = |e: &OpeningHoursExpression| {
+            let mut e = e.clone();
+            for r in &mut e.rules {
+                r.comments = Default::default();
+            }
+            e
+        };
+        match lib_parse(&case.text) {
+            Ok(p) if p == case.ast => {}
+            Ok(p) if strip(&p) == strip(&case.ast) => rep.count("parsed_comments_differ_from_written_ones"),
+            _ => {
+                rep.count("skipped_parser_differs");
+                continue;
+            }
         }
         let Some(oh) = build(&case.text, &case.hol) else { continue };
         coverage_of(&case.ast, rep);
